@@ -292,6 +292,11 @@ http_chunk_decode_append_data (request_st * const r, const char *mem, off_t len)
                 p = memchr(mem, '\n', (size_t)len);
                 if (p) {
                     hsz = (off_t)(++p - mem);
+                    if (hsz > 1024) { /*(same limit as for line split below)*/
+                        log_error(r->conf.errh, __FILE__, __LINE__,
+                          "chunked header line too long");
+                        return -1;
+                    }
                     if (p-1 == mem || p[-2] != '\r')
                         p = NULL; /* flag missing '\r'; p checked again below */
                 }
